@@ -334,6 +334,7 @@ func c12(c *Ctx) {
 	// The files written must be the ones the printers produce in-process for the same function and
 	// configuration, and the pair must build and vet as a package.
 	cliProbe(c, dir)
+	vetLayoutProbe(c, dir)
 	var good []string
 	for _, r := range rows {
 		if r != "" {
@@ -455,4 +456,113 @@ func cliProbe(c *Ctx, dir string) {
 			break
 		}
 	}
+}
+
+// vetLayoutProbe: functions whose results are written (so that the assembler-declaration vet check also
+// checks result offsets and the argument size), over signatures with parameters and results of mixed
+// sizes.  The stub and the assembly avo prints for them must build and vet together.
+func vetLayoutProbe(c *Ctx, dir string) {
+	o := c.Out
+	sigs := []string{
+		"func(c byte) (ok bool, n int)",
+		"func(a uint16, b uint8) (x uint8, y uint32, z uint64)",
+		"func(p *int, f float32) (r float64, e uint8, q int16)",
+		"func(x uint8) (a uint8, b uint16, c uint8, d uint64)",
+		"func(a, b uint32, c uint8) (lo uint32, hi uint8, ok bool, sum uint64)",
+		"func(s string, t uint8) (n int, first byte, w uint16)",
+		"func() (a uint8, b uint64)",
+		"func(x uint64, done struct{}) (y uint64)",
+		"func(x uint64, done struct{})",
+		"func(x uint64) (y uint64, ok struct{})",
+		"func(a uint8) (z [0]uint64, b uint8)",
+	}
+	pd := filepath.Join(dir, "vetlayout")
+	os.MkdirAll(pd, 0o755)
+	defer os.RemoveAll(pd)
+	ctx := build.NewContext()
+	for k, sg := range sigs {
+		ctx.Function(fmt.Sprintf("L%d", k))
+		ctx.Attributes(attr.NOSPLIT)
+		ctx.SignatureExpr(sg)
+		for ri := 0; ri < 8; ri++ {
+			comp := ctx.ReturnIndex(ri)
+			b, err := comp.Resolve()
+			if err != nil {
+				break // past the last result
+			}
+			switch {
+			case b.Type.Kind() == types.Float64:
+				x := ctx.XMM()
+				ctx.XORPS(x, x)
+				ctx.Store(x, comp)
+			case b.Type.Kind() == types.Float32:
+				x := ctx.XMM()
+				ctx.XORPS(x, x)
+				ctx.Store(x, comp)
+			default:
+				var r reg.Register
+				switch sizeofBasic(b.Type) {
+				case 1:
+					r = ctx.GP8()
+					ctx.MOVB(operand.U8(0), r)
+				case 2:
+					r = ctx.GP16()
+					ctx.MOVW(operand.U16(0), r)
+				case 4:
+					r = ctx.GP32()
+					ctx.MOVL(operand.U32(0), r)
+				default:
+					r = ctx.GP64()
+					ctx.MOVQ(operand.U32(0), r)
+				}
+				ctx.Store(r, comp)
+			}
+		}
+		ctx.RET()
+	}
+	f, err := ctx.Result()
+	idx := o.AddCase(Case{Key: "stub:vet-layout", Desc: "functions writing every result: " + strings.Join(sigs, "; "), Input: map[string]any{"signatures": sigs}, Nontrivial: true})
+	if err != nil {
+		o.Plan.GoViolations = append(o.Plan.GoViolations, GoViolation{Key: "stub:vet-layout-build", Desc: fmt.Sprintf("case %d: building the functions fails: %v", idx, err)})
+		return
+	}
+	if err := pass.Compile.Execute(f); err != nil {
+		o.Plan.GoViolations = append(o.Plan.GoViolations, GoViolation{Key: "stub:vet-layout-build", Desc: fmt.Sprintf("case %d: compiling the functions fails: %v", idx, err)})
+		return
+	}
+	cfg := printer.Config{Name: "avo", Pkg: "vetlayout"}
+	stub, _ := printer.NewStubs(cfg).Print(f)
+	asm, _ := printer.NewGoAsm(cfg).Print(f)
+	os.WriteFile(filepath.Join(pd, "stub.go"), stub, 0o644)
+	os.WriteFile(filepath.Join(pd, "stub_amd64.s"), asm, 0o644)
+	os.WriteFile(filepath.Join(pd, "go.mod"), []byte("module vetlayout\n\ngo 1.23\n"), 0o644)
+	for _, step := range [][]string{{"go", "build", "./..."}, {"go", "vet", "./..."}} {
+		cmd := exec.Command(step[0], step[1:]...)
+		cmd.Dir = pd
+		cmd.Env = append(os.Environ(), "GOFLAGS=-mod=mod")
+		if out, err := cmd.CombinedOutput(); err != nil {
+			lines := strings.Split(strings.TrimSpace(string(out)), "\n")
+			msg := lines[len(lines)-1]
+			for _, ln := range lines {
+				if strings.Contains(ln, ".s:") {
+					msg = ln
+					break
+				}
+			}
+			o.Plan.GoViolations = append(o.Plan.GoViolations, GoViolation{Key: "stub:vet-layout:" + step[1], Desc: fmt.Sprintf("case %d: `go %s` refuses the stub + assembly pair of functions that write their results: %s", idx, step[1], msg), Replay: map[string]any{"stub": string(stub), "asm": string(asm)}})
+			break
+		}
+	}
+}
+
+func sizeofBasic(b *types.Basic) int {
+	switch b.Kind() {
+	case types.Bool, types.Int8, types.Uint8:
+		return 1
+	case types.Int16, types.Uint16:
+		return 2
+	case types.Int32, types.Uint32:
+		return 4
+	}
+	return 8
 }
